@@ -566,21 +566,16 @@ void hb_access( const void* addr, bool is_write, const char* what ) noexcept
     int t = tl_self->id;
     HbPayload& p = H.pay[addr];
     char buf[512];
-    // conflict with the last write?
-    if ( p.wt >= 0 && p.wt != t && !vc_leq_at( H.thr[t], p.wt, p.wclk )) {
+    // Only the hand-off direction is an oracle: a READ of a payload must happen after the last WRITE of it
+    // (producer -> consumer through the container). Write-after-read / write-after-write orderings (a node's
+    // destruction by the reclaiming thread after the last reader) belong to the reclamation schemes under a memory
+    // model this technique does not explore (DESIGN 8), so they are recorded but not judged.
+    if ( !is_write && p.wt >= 0 && p.wt != t && !vc_leq_at( H.thr[t], p.wt, p.wclk )) {
         snprintf( buf, sizeof buf, "payload-race: %s of payload %p by t%d is not ordered after %s by t%d (no happens-before through the container)",
             what, addr, t, p.wwhat, p.wt );
         fail_now( buf );
     }
     if ( is_write ) {
-        if ( p.any_read ) {
-            for ( int i = 0; i < MAXT; ++i ) {
-                if ( i != t && p.reads.c[i] && !vc_leq_at( H.thr[t], i, p.reads.c[i] )) {
-                    snprintf( buf, sizeof buf, "payload-race: %s of payload %p by t%d is not ordered after a read by t%d", what, addr, t, i );
-                    fail_now( buf );
-                }
-            }
-        }
         p.wt = t; p.wclk = H.thr[t].c[t]; p.wwhat = what;
         memset( &p.reads, 0, sizeof p.reads ); p.any_read = false;
     }
